@@ -7,9 +7,9 @@
   most p fraction digits are unchanged, radix numerals read back, grouping separators only
   stand between the digits and removing them gives the digits back, the fixed-point numeral
   reads back as the rounded value with exactly dp fraction digits, exponent normalisation
-  preserves mantissa × 10^exponent.  PARTIAL (DESIGN.md §6 C18): termination of the exponent
-  loops for every value (the model runs them with fuel 800; the correspondence runs the real
-  loops under a wall-clock limit) and the double ↔ decimal conversions are not theorems.
+  preserves mantissa × 10^exponent and terminates with the mantissa in the picture's range
+  (the loops that hung for 0 and negative numbers).  PARTIAL (DESIGN.md §6 C18): the
+  double ↔ decimal conversions (strconv) are parameters, not theorems.
 -/
 import JsonataModel.Model.Lib
 import JsonataModel.Generated.Facts
@@ -316,6 +316,130 @@ theorem normalise_in_range (a : Nat) (s : Int) (fuel : Nat) (e x : Int)
     (h1 : ltPow10 a e (s - 1) = false) (h2 : gtPow10 a e s = false) :
     normalise a s (fuel + 1) e x = (e, x) := by
   simp [normalise, h1, h2]
+
+/-! ### termination of the exponent normalisation (the loops that did not terminate for 0 and negative numbers) -/
+
+theorem lt_iff (a : Nat) (ha : 1 ≤ a) (e k : Int) :
+    ltPow10 a e k = true ↔ e < k ∧ a < 10 ^ (k - e).toNat := by
+  unfold ltPow10
+  by_cases h : e ≥ k
+  · have hp : 1 ≤ a * 10 ^ (e - k).toNat := Nat.mul_pos ha (Nat.pow_pos (by decide))
+    simp [h]
+    omega
+  · simp [h]
+    omega
+
+theorem gt_iff (a : Nat) (e k : Int) :
+    gtPow10 a e k = true ↔ (e ≥ k ∧ a * 10 ^ (e - k).toNat > 1) ∨ (e < k ∧ a > 10 ^ (k - e).toNat) := by
+  unfold gtPow10
+  by_cases h : e ≥ k
+  · simp [h]; omega
+  · simp [h]; omega
+
+/-- below range now ⇒ not above range after one step up -/
+theorem lt_then_not_gt (a : Nat) (ha : 1 ≤ a) (e s : Int) (h : ltPow10 a e (s - 1) = true) :
+    gtPow10 a (e + 1) s = false := by
+  obtain ⟨h1, h2⟩ := (lt_iff a ha e (s - 1)).mp h
+  cases hg : gtPow10 a (e + 1) s with
+  | false => rfl
+  | true =>
+    rcases (gt_iff a (e + 1) s).mp hg with ⟨h3, _⟩ | ⟨_, h4⟩
+    · omega
+    · have : s - (e + 1) = s - 1 - e := by omega
+      rw [this] at h4
+      omega
+
+/-- above range now ⇒ not below range after one step down -/
+theorem gt_then_not_lt (a : Nat) (ha : 1 ≤ a) (e s : Int) (h : gtPow10 a e s = true) :
+    ltPow10 a (e - 1) (s - 1) = false := by
+  cases hl : ltPow10 a (e - 1) (s - 1) with
+  | false => rfl
+  | true =>
+    obtain ⟨h1, h2⟩ := (lt_iff a ha (e - 1) (s - 1)).mp hl
+    rcases (gt_iff a e s).mp h with ⟨h3, _⟩ | ⟨_, h4⟩
+    · omega
+    · have : s - 1 - (e - 1) = s - e := by omega
+      rw [this] at h2
+      omega
+
+theorem gt_measure (a D : Nat) (ha : 1 ≤ a) (hD : a < 10 ^ D) (e s : Int) (h : gtPow10 a e s = true) :
+    s - e < D := by
+  have hD1 : 1 ≤ D := by
+    cases D with
+    | zero => simp at hD; omega
+    | succ n => omega
+  rcases (gt_iff a e s).mp h with ⟨h3, _⟩ | ⟨h3, h4⟩
+  · omega
+  · by_cases hle : (D : Int) ≤ s - e
+    · have : D ≤ (s - e).toNat := by omega
+      have := Nat.pow_le_pow_right (show 1 ≤ 10 by decide) this
+      omega
+    · omega
+
+def InRange (a : Nat) (s e : Int) : Prop := ltPow10 a e (s - 1) = false ∧ gtPow10 a e s = false
+
+/-- phase B: nothing is below range any more; the mantissa is divided by ten while it is above -/
+theorem normalise_down (a D : Nat) (ha : 1 ≤ a) (hD : a < 10 ^ D) (s : Int) :
+    ∀ (fuel : Nat) (e x : Int), ltPow10 a e (s - 1) = false → e + D - s < fuel →
+      InRange a s (normalise a s fuel e x).1
+  | 0, e, x, hl, hf => by
+    -- no fuel is only possible when the mantissa is already in range
+    have hg : gtPow10 a e s = false := by
+      cases hg : gtPow10 a e s with
+      | false => rfl
+      | true => have := gt_measure a D ha hD e s hg; omega
+    exact ⟨hl, hg⟩
+  | fuel + 1, e, x, hl, hf => by
+    unfold normalise
+    simp only [hl]
+    cases hg : gtPow10 a e s with
+    | false => simpa using ⟨hl, hg⟩
+    | true =>
+      simp only [if_true]
+      have hl' := gt_then_not_lt a ha e s hg
+      have hm := gt_measure a D ha hD e s hg
+      exact normalise_down a D ha hD s fuel (e - 1) (x + 1) hl' (by omega)
+
+/-- phase A: the mantissa is multiplied by ten while it is below range; it then is in range -/
+theorem normalise_up (a D : Nat) (ha : 1 ≤ a) (hD : a < 10 ^ D) (s : Int) :
+    ∀ (fuel : Nat) (e x : Int), ltPow10 a e (s - 1) = true → s - 1 - e < fuel →
+      InRange a s (normalise a s fuel e x).1
+  | 0, e, x, hl, hf => by
+    have := ((lt_iff a ha e (s - 1)).mp hl).1
+    omega
+  | fuel + 1, e, x, hl, hf => by
+    unfold normalise
+    simp only [hl, if_true]
+    have he := ((lt_iff a ha e (s - 1)).mp hl).1
+    cases hl' : ltPow10 a (e + 1) (s - 1) with
+    | true => exact normalise_up a D ha hD s fuel (e + 1) (x - 1) hl' (by omega)
+    | false =>
+      have hg := lt_then_not_gt a ha e s hl
+      -- one more unfolding returns (e + 1, x - 1)
+      cases fuel with
+      | zero => omega
+      | succ f =>
+        unfold normalise
+        simp only [hl', hg]
+        exact ⟨hl', hg⟩
+
+/-- **Termination of the exponent normalisation.**  For a non-zero mantissa `a` with at most `D`
+    digits, scaling factor `s` and starting exponent `e`: with more fuel than
+    max(s − 1 − e, e + D − s) the loops stop with the mantissa in the picture's range
+    10^(s−1) ≤ a·10^e' ≤ 10^s (and, by `normalise_preserves`, mantissa × 10^exponent unchanged). -/
+theorem normalise_terminates (a D : Nat) (ha : 1 ≤ a) (hD : a < 10 ^ D) (s e x : Int) (fuel : Nat)
+    (h1 : s - 1 - e < fuel) (h2 : e + D - s < fuel) :
+    InRange a s (normalise a s fuel e x).1 := by
+  cases hl : ltPow10 a e (s - 1) with
+  | true => exact normalise_up a D ha hD s fuel e x hl h1
+  | false => exact normalise_down a D ha hD s fuel e x hl h2
+
+/-- the fuel the model runs with (800) suffices for every double and every picture with fewer than
+    300 mandatory integer digits: |e| ≤ 400 and at most 40 digits cover all finite doubles scaled by 1000 -/
+theorem normalise_fuel_800 (a : Nat) (ha : 1 ≤ a) (hD : a < 10 ^ 40) (s e x : Int)
+    (hs0 : 0 ≤ s) (hs : s ≤ 300) (he0 : -400 ≤ e) (he1 : e ≤ 400) :
+    InRange a s (normalise a s 800 e x).1 :=
+  normalise_terminates a 40 ha hD s e x 800 (by omega) (by omega)
 
 /-! ### picture analysis -/
 
